@@ -381,7 +381,7 @@ func run(r *ev.Run) {
 		maxLen = 5
 	}
 	r.Rule(fmt.Sprintf("E3: all chains of length 0..%d over 6 handler behaviours {pass,modify,replace,stop,replace+stop,stop-with-nil} x protocol {4,6}, built through plugins.LoadPlugins and run through HandleMsg4/6; the same chains up to length %d loaded from generated YAML through config.Load; all placements of v4-only/v6-only/dual/unknown/failing-setup plugins in chains of length <=3. Reference interpreter from the property text. Class = proto/len/yaml/#calls/sent.", maxLen, map[bool]int{true: 2, false: 5}[r.Quick()]))
-	r.Assume("server.Start's sharing of one handler slice between listeners is not executed (needs privileged sockets)")
+	r.Assume("server.Start is executed only in the loopback binding run (one listener per protocol); multicast/interface-bound listeners are not opened")
 	var rec func(prefix []Item, n int, f func([]Item))
 	rec = func(prefix []Item, n int, f func([]Item)) {
 		if len(prefix) == n {
@@ -422,9 +422,19 @@ func run(r *ev.Run) {
 		rk(nil, n)
 	}
 	builtinMonitor(r)
+	r.Rule("Binding run through the real server.Start with loopback sockets, both protocols: a request sent from inside the set-up function of each of two configured marker plugins (the chain is not complete yet) must stay unanswered; after Start returns the same request comes back with both markers in configured order.")
+	startBinding(r, 6)
+	startBinding(r, 4)
 }
 
 func replay(r *ev.Run, raw json.RawMessage) {
+	var st struct {
+		Start *struct{ Proto int } `json:"start"`
+	}
+	if json.Unmarshal(raw, &st) == nil && st.Start != nil {
+		startBinding(r, st.Start.Proto)
+		return
+	}
 	var c Case
 	if err := json.Unmarshal(raw, &c); err != nil {
 		r.Violate("C13/replay/bad-file", err.Error(), nil)
